@@ -57,12 +57,25 @@ pub struct Stats {
     pub inconclusive: Option<String>,
     /// API calls made (input bytes, writes, prompt changes), each followed by the oracle
     pub steps: u64,
+    /// samples kept so far, per property (two each)
+    sampled: Vec<(&'static str, u8)>,
 }
 
 impl Stats {
     fn nt(&mut self, prop: &'static str, fp: u64, sample: impl FnOnce() -> Value) {
-        let have = self.nontrivial.iter().filter(|x| x.0 == prop && x.2.is_some()).count();
-        let s = if have < 2 { Some(sample()) } else { None };
+        let slot = match self.sampled.iter().position(|x| x.0 == prop) {
+            Some(i) => i,
+            None => {
+                self.sampled.push((prop, 0));
+                self.sampled.len() - 1
+            }
+        };
+        let s = if self.sampled[slot].1 < 2 {
+            self.sampled[slot].1 += 1;
+            Some(sample())
+        } else {
+            None
+        };
         self.nontrivial.push((prop, fp, s));
     }
 }
@@ -546,7 +559,7 @@ fn do_enter<S: CmdSet>(
             return Err((format!("{}: afterwards the line is empty", what), format!("line {:?} cursor {}", lossy(&ev.bytes), ev.cursor)));
         }
         // screen: the prompt alone on a fresh last row
-        let mut sc = x.screen.clone();
+        let mut sc = x.screen.fork();
         sc.feed(out);
         if sc.inconclusive.is_none() {
             let fresh = sc.row > row0 && sc.is_last_row();
@@ -594,7 +607,7 @@ fn do_enter<S: CmdSet>(
                         format!("{:?}", lossy(&collapse_cr(out))),
                     ));
                 }
-                let mut scn = x.screen.clone();
+                let mut scn = x.screen.fork();
                 scn.feed(out);
                 if scn.inconclusive.is_none() {
                     let mut want_rows = text_lines(&full);
@@ -948,7 +961,7 @@ pub fn run_lockstep_shard(
     // sessions built around completions (word, blanks, cursor moved back, Tab) followed by output, a prompt change or an
     // edit: the states a completion leaves behind are rare in the general sessions
     run_lockstep_shard_with(ctx, sub, prop, total / 6, tab_session_strategy(true), flags);
-    run_marathon(ctx, sub, prop, case_strategy(opts, sets), flags, ctx.tier.pick(70_000, 400_000));
+    run_marathon(ctx, sub, prop, case_strategy(opts, sets), flags, ctx.tier.pick(1_500_000, 10_000_000));
 }
 
 /// One session per shard that goes on for `target` key and API operations (the operations of many generated sessions, one
@@ -982,6 +995,7 @@ pub fn run_marathon<S: Strategy<Value = Case>>(ctx: &ShardCtx, sub: &'static str
         }
     }
     let Some(mut c) = case else { return };
+    let t0 = std::time::Instant::now();
     ctx.count_eval();
     if ctx.trace_file.is_some() {
         ctx.trace(&json!({"check": sub, "case": case_json(&c)}));
@@ -999,6 +1013,9 @@ pub fn run_marathon<S: Strategy<Value = Case>>(ctx: &ShardCtx, sub: &'static str
             ctx.class_n("api calls checked", stats.steps);
             ctx.class_n("marathon:operations in one session", c.ops.len() as u64);
             ctx.class("marathon:sessions");
+            if std::env::var("VERIF_TIMING").is_ok() {
+                eprintln!("marathon shard {}: {} ops in {:?}", ctx.shard, c.ops.len(), t0.elapsed());
+            }
             for (p, fp, sample) in stats.nontrivial {
                 if p == prop {
                     ctx.nontrivial(fp, || sample.unwrap_or(Value::Null));
